@@ -30,7 +30,10 @@ def one(cand):
     cand = os.path.abspath(cand)
     meta = json.load(open(os.path.join(cand, 'meta.json')))
     prop = meta.get('property') or os.path.basename(os.path.dirname(cand))[:3]
-    sid = '%s-%s' % (prop, os.path.basename(cand))
+    n = os.path.basename(cand)
+    if os.path.basename(os.path.dirname(cand)).endswith('.out2') and n.isdigit():
+        n = str(int(n) + 2)   # second round of seeding
+    sid = '%s-%s' % (prop, n)
     wt = tempfile.mkdtemp(prefix='pysmi-seed-')
     os.rmdir(wt)
     res = {'id': sid, 'candidate': cand, 'property': prop}
